@@ -188,11 +188,9 @@ func c10Materialise(role int) {
 	case c10RoleGsfaManifest:
 		img = c10ManifestImage(f)
 	case c10RoleSigExists:
-		if foreign && verifChoice("foreign", 2) == 1 {
-			img = c10CompactImage(f, len(c10Kinds)) // a hash index configured as sig-exists
-		} else {
-			img = c10BucketImage(f)
-		}
+		// (no foreign-format file here: bucketteer.readHeader allocates whatever the first four bytes
+		// say, 1.6 GB for any other format's magic -- robustness of that reader is C12's subject)
+		img = c10BucketImage(f)
 	case c10RoleBlocktime:
 		if foreign && verifChoice("foreign", 2) == 1 {
 			img = c10CompactImage(f, 1)
